@@ -53,6 +53,9 @@ def generate(rng, tier):
         # hyphenated, different bases: best_match compares what follows the LAST '-'
         b1, b2 = rng.choice([("foo-b", "foo-a"), ("x-9", "x-1"), ("lib-alpha", "lib-beta"), ("a-2.0", "a-1")])
         cases.append(Case("pat.best", [enc("*"), enc(b1 + "-" + a), enc(b2 + "-" + b)], meta={"a": a, "b": b, "best": True}))
+        # names without any '-' have the empty version: the text is NOT read as a version
+        if a and b and rng.random() < 0.3:
+            cases.append(Case("pat.best", [enc("*"), enc("p" + a), enc("p" + b)], meta={"a": a, "b": b, "best": True}))
     if tier == "thorough":
         # every string of length <= 3 over a 14-symbol alphabet against a panel
         alpha = "019._abnArcpl"
